@@ -1,4 +1,5 @@
 import CircBuf.Lemmas.CoreTie
+import CircBuf.Lemmas.NonDefect
 import CircBuf.Lemmas.HistoryConserve
 import CircBuf.Props.C01
 import CircBuf.Props.C03
@@ -36,12 +37,17 @@ def runOpSrc : Op → M Out
   | .clear => do Gen.clear; pure .unit
   | .makeContiguous => do let _ ← Gen.make_contiguous; pure .unit
 
-theorem runOpSrc_eq (op : Op) (s : Sys) (h : Inv s.buf) : runOpSrc op s = runOp op s := by
+theorem runOpSrc_eq (op : Op) (s : Sys) (h : Inv s.buf) (hd : s.faults.drop = 0) :
+    runOpSrc op s = runOp op s := by
   cases op <;>
-    simp only [runOpSrc, runOp, bind_run, attempt, tie_push_back _ s h, tie_push_front _ s h,
-      tie_try_push_back _ s h, tie_try_push_front _ s h, tie_pop_back s h, tie_pop_front s h, tie_remove _ s h,
-      tie_swap_remove_back _ s h, tie_swap_remove_front _ s h, tie_swap _ _ s h, tie_truncate_back _ s h,
-      tie_truncate_front _ s h, tie_clear s h, tie_make_contiguous s h] <;> (try rfl)
+    simp only [runOpSrc, runOp, bind_run, attempt, tie_push_back _ s h (nd_pushBack _ s h),
+      tie_push_front _ s h (nd_pushFront _ s h), tie_try_push_back _ s h (nd_tryPushBack _ s h),
+      tie_try_push_front _ s h (nd_tryPushFront _ s h), tie_pop_back s h (nd_popBack s h),
+      tie_pop_front s h (nd_popFront s h), tie_remove _ s h (nd_remove _ s h),
+      tie_swap_remove_back _ s h (nd_swapRemoveBack _ s h), tie_swap_remove_front _ s h (nd_swapRemoveFront _ s h),
+      tie_swap _ _ s h (nd_swap _ _ s h), tie_truncate_back _ s h (nd_truncateBack_nofault _ s h hd),
+      tie_truncate_front _ s h (nd_truncateFront_nofault _ s h hd), tie_clear s h (nd_clear_nofault s h hd),
+      tie_make_contiguous s h (nd_makeContiguous s h)] <;> (try rfl)
 
 def runOpsSrc : List Op → Sys → List Out × Sys
   | [], s => ([], s)
@@ -56,7 +62,7 @@ theorem runOpsSrc_eq (cap : Nat) (ops : List Op) (s : Sys) (g : Good cap s) :
   | nil => rfl
   | cons op rest ih =>
     obtain ⟨s', e, g', _, _, _⟩ := step_refines cap s op g
-    simp only [runOpsSrc, runOps, runOpSrc_eq op s g.inv, e, ih s' g']
+    simp only [runOpsSrc, runOps, runOpSrc_eq op s g.inv g.nodrop, e, ih s' g']
 
 /-- **every finite history of the translated code** produces the outputs and the final contents of
 the same history on the abstract deque, and ends in a state satisfying the invariant -/
